@@ -47,6 +47,26 @@ Proof.
   - cbn [last_byte]. cbn [last_byte] in IH. exact IH.
 Qed.
 
+Lemma W64_pow : W64 = 2 ^ 64. Proof. reflexivity. Qed.
+
+(* the codes the binary writer and parser compute with wrapping arithmetic are the plain ones where they are used *)
+Lemma ocode_used h (lats : list (option N * N * option bool)) (ands : list (option N * N * N)) maxc :
+  maxc < 2 ^ 64 -> a_max_var h <= (maxc - 1) / 2 -> 1 <= maxc ->
+  a_inputs h + nlen lats + nlen ands <= a_max_var h ->
+  let c1 := (((a_inputs h + 1) mod W64) * 2) mod W64 in
+  c1 < W64 /\
+  (lats <> [] -> c1 = (a_inputs h + 1) * 2) /\
+  (ands <> [] -> (c1 + 2 * nlen lats) mod W64 = (a_inputs h + 1) * 2 + 2 * nlen lats).
+Proof.
+  intros Hc64 HM Hc1 Hsum c1. rewrite <- W64_pow in Hc64.
+  assert (Hi : (a_inputs h + 1) mod W64 = a_inputs h + 1) by (apply N.mod_small; lia).
+  split; [apply N.mod_lt; unfold W64; lia|]. split.
+  - intros Hne. assert (1 <= nlen lats) by (destruct lats; [congruence|rewrite nlen_cons; lia]).
+    unfold c1. rewrite Hi. apply N.mod_small. lia.
+  - intros Hne. assert (1 <= nlen ands) by (destruct ands; [congruence|rewrite nlen_cons; lia]).
+    unfold c1. rewrite Hi. rewrite (N.mod_small ((a_inputs h + 1) * 2)) by lia. apply N.mod_small. lia.
+Qed.
+
 (* ------------------------------------------------------------------ *)
 (* tokens on a fixed text                                              *)
 
@@ -1200,38 +1220,40 @@ Fixpoint oands_ok (code : N) (gs : list (option N * N * N)) : Prop :=
   | (o, x, y) :: r => (o = None /\ y <= x /\ x <= code /\ code - x < 2 ^ 56 /\ x - y < 2 ^ 56) /\ oands_ok (code + 2) r
   end.
 
-Lemma W64_pow : W64 = 2 ^ 64. Proof. reflexivity. Qed.
-
-Lemma olatches_chain : forall lats st code,
-  Forall olatch_ok lats -> (lats <> [] -> st = code) -> 2 <= code -> code + 2 * nlen lats <= 2 * M + 2 ->
-  exists st', chain (aig_latch fuel maxc max_lit) st (w_olatches code lats) (List.map olatch_item lats) st' /\
-              (st = code -> code + 2 * nlen lats < W64 -> st' = code + 2 * nlen lats).
+(* writer and parser step the code in the same way (wrapping addition of 2); a code that is used is below 2^64 *)
+Lemma olatches_chain : forall lats st,
+  Forall olatch_ok lats -> st < W64 -> (lats <> [] -> 2 <= st /\ st + 2 * nlen lats <= 2 * M + 2) ->
+  chain (aig_latch fuel maxc max_lit) st (w_olatches st lats) (List.map olatch_item lats) ((st + 2 * nlen lats) mod W64).
 Proof.
-  induction lats as [|[[s n] i] lats IH]; intros st code Hok Hst H2 Hb.
-  - exists st. split; [constructor|]. intros -> _. change (nlen (@nil (option N * N * option bool))) with 0. lia.
-  - inversion Hok as [|? ? Hx Hok']; subst. cbn [olatch_ok] in Hx. destruct Hx as [_ Hn]. rewrite (Hst ltac:(discriminate)). rewrite nlen_cons in Hb.
+  induction lats as [|[[s n] i] lats IH]; intros st Hok Hst Hb.
+  - change (nlen (@nil (option N * N * option bool))) with 0. rewrite N.mul_0_r, N.add_0_r, (N.mod_small st W64 Hst). constructor.
+  - inversion Hok as [|? ? Hx Hok']; subst. cbn [olatch_ok] in Hx. destruct Hx as [_ Hn].
+    destruct (Hb ltac:(discriminate)) as [H2 Hbd]. rewrite nlen_cons in Hbd.
     pose proof Hmc as Hmc'. rewrite <- W64_pow in Hmc'.
-    assert (P1 : lats <> [] -> (code + 2) mod W64 = code + 2).
-    { intros Hne. apply N.mod_small. assert (1 <= nlen lats) by (destruct lats; [congruence|rewrite nlen_cons; lia]). lia. }
-    destruct (IH ((code + 2) mod W64) (code + 2) Hok' P1 ltac:(lia) ltac:(lia)) as (st' & Hch & Hfin).
-    exists st'. split.
-    + cbn [w_olatches List.map olatch_item].
-      apply ch_cons with (st1 := (code + 2) mod W64); [pose proof (decimal_N_nonempty n); destruct (decimal_N n); [congruence|discriminate]| |exact Hch].
-      apply (aig_latch_hit maxc max_lit Hml_ Hmc Hml1_ code n i); unfold max_lit, lit_ok in *; lia.
-    + intros _ Hlt. rewrite nlen_cons in Hlt. rewrite nlen_cons. rewrite Hfin; [lia|apply N.mod_small; lia|lia].
+    assert (Hlt : (st + 2) mod W64 < W64) by (apply N.mod_lt; unfold W64; lia).
+    assert (P1 : lats <> [] -> 2 <= (st + 2) mod W64 /\ (st + 2) mod W64 + 2 * nlen lats <= 2 * M + 2).
+    { intros Hne. assert (1 <= nlen lats) by (destruct lats; [congruence|rewrite nlen_cons; lia]).
+      rewrite (N.mod_small (st + 2) W64) by lia. lia. }
+    pose proof (IH ((st + 2) mod W64) Hok' Hlt P1) as Hch.
+    replace ((st + 2 * nlen ((s, n, i) :: lats)) mod W64) with (((st + 2) mod W64 + 2 * nlen lats) mod W64).
+    2:{ rewrite nlen_cons. rewrite N.add_mod_idemp_l by (unfold W64; lia). f_equal. lia. }
+    cbn [w_olatches List.map olatch_item].
+    apply ch_cons with (st1 := (st + 2) mod W64); [pose proof (decimal_N_nonempty n); destruct (decimal_N n); [congruence|discriminate]| |exact Hch].
+    apply (aig_latch_hit maxc max_lit Hml_ Hmc Hml1_ st n i); unfold max_lit, lit_ok in *; lia.
 Qed.
 
 Lemma oands_chain : forall gs st code,
-  oands_ok code gs -> (gs <> [] -> st = code) -> code + 2 * nlen gs <= 2 * M + 2 ->
-  exists st', chain (aig_and maxc) st (w_oands code gs) (List.map oand_item gs) st'.
+  oands_ok code gs -> (gs <> [] -> st = code /\ code + 2 * nlen gs <= 2 * M + 2) ->
+  exists st', chain (aig_and maxc) st (w_oands st gs) (List.map oand_item gs) st'.
 Proof.
-  induction gs as [|[[o x] y] gs IH]; intros st code Hok Hst Hb.
+  induction gs as [|[[o x] y] gs IH]; intros st code Hok Hst.
   - exists st. constructor.
-  - destruct Hok as [(_ & Hyx & Hxc & Hd0 & Hd1) Hok']. rewrite (Hst ltac:(discriminate)). rewrite nlen_cons in Hb.
+  - destruct Hok as [(_ & Hyx & Hxc & Hd0 & Hd1) Hok']. destruct (Hst ltac:(discriminate)) as [-> Hb]. rewrite nlen_cons in Hb.
     pose proof Hmc as Hmc'. rewrite <- W64_pow in Hmc'.
-    assert (P1 : gs <> [] -> (code + 2) mod W64 = code + 2).
-    { intros Hne. apply N.mod_small. assert (1 <= nlen gs) by (destruct gs; [congruence|rewrite nlen_cons; lia]). lia. }
-    destruct (IH ((code + 2) mod W64) (code + 2) Hok' P1 ltac:(lia)) as (st' & Hch).
+    assert (P1 : gs <> [] -> (code + 2) mod W64 = code + 2 /\ code + 2 + 2 * nlen gs <= 2 * M + 2).
+    { intros Hne. assert (1 <= nlen gs) by (destruct gs; [congruence|rewrite nlen_cons; lia]).
+      split; [apply N.mod_small; lia|lia]. }
+    destruct (IH ((code + 2) mod W64) (code + 2) Hok' P1) as (st' & Hch).
     exists st'. cbn [w_oands List.map oand_item].
     apply ch_cons with (st1 := (code + 2) mod W64); [|apply (aig_and_hit maxc max_lit Hml_ Hmc Hml1_ code x y); unfold max_lit; try assumption; lia|exact Hch].
     unfold w_oand. pose proof (enc_groups_nonempty 10 (code - (if x <? y then y else x)) ltac:(lia)) as Hne.
@@ -1308,39 +1330,41 @@ Definition aig_items (a : aig) : list item :=
   List.map olatch_item (g_latches a) ++ middle_items a ++ List.map oand_item (g_ands a)
   ++ List.map sym_item (g_symbols a) ++ cmt_items (g_comment a).
 
-(* an OrderedAig: no input list (input_count is the header's I), latches and gates without own literal;
-   the writer's code arithmetic `(input_count + 1) * 2`, `code += 2` stays within usize *)
+(* an OrderedAig: no input list (input_count is the header's I), latches and gates without own literal; gate k has
+   the literal 2 (I + L + 1 + k) (the writer and the parser compute it with wrapping arithmetic: up to
+   I + L + A = M = 2^63 - 1 no code that is used wraps) *)
 Definition aig_ok (maxc : N) (a : aig) : Prop :=
   let h := g_header a in let M := a_max_var h in
-  counts_ok maxc a /\ g_inputs a = [] /\ 2 * (a_inputs h + nlen (g_latches a) + nlen (g_ands a) + 1) < 2 ^ 64 /\
+  counts_ok maxc a /\ g_inputs a = [] /\
   Forall (olatch_ok M) (g_latches a) /\ middle_ok M a /\
   oands_ok ((a_inputs h + 1) * 2 + 2 * nlen (g_latches a)) (g_ands a) /\
   Forall (sym_ok h) (g_symbols a) /\ cmt_ok (g_comment a).
+
 
 Lemma parse_aig_lfin maxc a :
   aig_ok maxc a -> lfin (parse_aig fuel maxc) (write_aig a) (Some (g_header a), aig_items a, FOk).
 Proof.
   destruct a as [h ins lats outs bad cons jus fair ands syms cm].
   unfold aig_ok, counts_ok. cbn [g_header g_inputs g_latches g_outputs g_bad g_constraints g_justice g_fairness g_ands g_symbols g_comment].
-  intros ((Hc1 & Hc64 & HM & Hsum & El & Eo & Ea & Eb & Ec & Ej & Ef & Ho64 & Hb64 & Hcc64 & Hj64 & Hf64) & Ei & Hovf & Hlats & Hmid & Hands & Hsyms & Hcm).
+  intros ((Hc1 & Hc64 & HM & Hsum & El & Eo & Ea & Eb & Ec & Ej & Ef & Ho64 & Hb64 & Hcc64 & Hj64 & Hf64) & Ei & Hlats & Hmid & Hands & Hsyms & Hcm).
   pose proof (max_lit_le maxc (a_max_var h) Hc1 HM) as HML.
-  unfold parse_aig, write_aig, aig_items. cbn [g_header g_inputs g_latches g_outputs g_bad g_constraints g_justice g_fairness g_ands g_symbols g_comment].
+  unfold parse_aig, write_aig, aig_items, ocode2, ocode1. cbn [g_header g_inputs g_latches g_outputs g_bad g_constraints g_justice g_fairness g_ands g_symbols g_comment].
   assert (Hh : h = mk_header (a_max_var h) (a_inputs h) (nlen lats) (nlen outs) (nlen ands) (nlen bad) (nlen cons) (nlen jus) (nlen fair)).
   { destruct h. cbn in *. unfold mk_header. congruence. }
   eapply lfin_pbnd.
   { unfold magic_binary. apply (header_hit 97 105 103 maxc); try lia. }
   rewrite <- Hh. cbn [finish_parse].
   intros c v s Hat Hle Hf Hs.
-  set (c1 := (a_inputs h + 1) * 2) in *.
-  assert (Hc0 : ((a_inputs h + 1) mod W64 * 2) mod W64 = c1).
-  { unfold c1. rewrite W64_pow. rewrite (N.mod_small (a_inputs h + 1)) by lia. apply N.mod_small. lia. }
-  rewrite Hc0.
-  destruct (olatches_chain maxc (a_max_var h) HML Hc64 lats c1 c1 Hlats (fun _ => eq_refl) ltac:(unfold c1; lia) ltac:(unfold c1; lia))
-    as (st1 & Hch1 & Hfin1).
-  destruct (oands_chain maxc (a_max_var h) HML Hc64 ands st1 (c1 + 2 * nlen lats) Hands) as (st2 & Hch2).
-  { intros Hne. apply Hfin1; [reflexivity|]. assert (1 <= nlen ands) by (destruct ands; [congruence|rewrite nlen_cons; lia]).
-    rewrite W64_pow. unfold c1. lia. }
-  { unfold c1. lia. }
+  rewrite El, Ea in Hsum.
+  destruct (ocode_used h lats ands maxc Hc64 HM Hc1 Hsum) as (Hc1lt & Hc1l & Hc2a).
+  set (c1 := ((a_inputs h + 1) mod W64 * 2) mod W64) in *.
+  assert (Hch1 := olatches_chain maxc (a_max_var h) HML Hc64 lats c1 Hlats Hc1lt).
+  assert (Hpre1 : lats <> [] -> 2 <= c1 /\ c1 + 2 * nlen lats <= 2 * a_max_var h + 2).
+  { intros Hne. rewrite (Hc1l Hne). lia. }
+  specialize (Hch1 Hpre1).
+  destruct (oands_chain maxc (a_max_var h) HML Hc64 ands ((c1 + 2 * nlen lats) mod W64) ((a_inputs h + 1) * 2 + 2 * nlen lats) Hands)
+    as (st2 & Hch2).
+  { intros Hne. split; [exact (Hc2a Hne)|lia]. }
   assert (Hbody : lfin
     (sect (sloop fuel (aig_latch fuel maxc (a_max_var h * 2 + 1)) (a_latches h) c1 []) (fun code =>
      middle_sections fuel maxc (a_max_var h * 2 + 1) h code (fun code0 =>
@@ -1349,7 +1373,7 @@ Proof.
     (w_olatches c1 lats ++
      w_middle {| g_header := h; g_inputs := ins; g_latches := lats; g_outputs := outs; g_bad := bad; g_constraints := cons;
                  g_justice := jus; g_fairness := fair; g_ands := ands; g_symbols := syms; g_comment := cm |} ++
-     w_oands (c1 + 2 * nlen lats) ands ++ flat_map w_symbol syms ++ cmt_text cm)
+     w_oands ((c1 + 2 * nlen lats) mod W64) ands ++ flat_map w_symbol syms ++ cmt_text cm)
     (List.map olatch_item lats ++
      middle_items {| g_header := h; g_inputs := ins; g_latches := lats; g_outputs := outs; g_bad := bad; g_constraints := cons;
                  g_justice := jus; g_fairness := fair; g_ands := ands; g_symbols := syms; g_comment := cm |} ++
@@ -1358,7 +1382,7 @@ Proof.
     eapply sect_lfin.
     { replace (nlen lats) with (nlen (List.map olatch_item lats)) by (unfold nlen; rewrite map_length; reflexivity).
       apply sloop_hit. exact Hch1. }
-    apply (middle_lfin maxc (a_max_var h) HML Hc64 h st1); try assumption.
+    apply (middle_lfin maxc (a_max_var h) HML Hc64 h ((c1 + 2 * nlen lats) mod W64)); try assumption.
     eapply sect_lfin.
     { replace (nlen ands) with (nlen (List.map oand_item ands)) by (unfold nlen; rewrite map_length; reflexivity).
       apply sloop_hit. exact Hch2. }
@@ -1516,7 +1540,7 @@ Lemma aig_of_aig_items maxc a : aig_ok maxc a -> aig_of_items (g_header a) (aig_
 Proof.
   destruct a as [h ins lats outs bad cons jus fair ands syms cm].
   unfold aig_ok. cbn [g_header g_inputs g_latches g_outputs g_bad g_constraints g_justice g_fairness g_ands g_symbols g_comment].
-  intros (_ & -> & _ & Hlats & _ & Hands & _ & _).
+  intros (_ & -> & Hlats & _ & Hands & _ & _).
   unfold aig_of_items, aig_items, middle_items.
   cbn [g_header g_inputs g_latches g_outputs g_bad g_constraints g_justice g_fairness g_ands g_symbols g_comment].
   f_equal; try (sel_all_b; try rewrite (sel_latches_aig _ lats Hlats); try rewrite (sel_ands_aig ands _ Hands);
@@ -1551,23 +1575,26 @@ Proof.
   eexists. exists s', v'. split; [exact R|]. cbn [whole_file]. rewrite (aig_of_aig_items maxc a Hok). reflexivity.
 Qed.
 
-(* in the domain the writer does not panic: write_aig_checked is write_aig *)
-Lemma oands_ok_check : forall gs code k, oands_ok code gs -> code + 2 * nlen gs < W64 -> oands_check code gs k = k.
+(* in the domain the writer's assertion holds: write_aig_checked is write_aig *)
+Lemma oands_ok_check : forall gs code st k,
+  oands_ok code gs -> (gs <> [] -> st = code /\ code + 2 * nlen gs <= W64) -> oands_check st gs k = k.
 Proof.
-  induction gs as [|[[o x] y] gs IH]; intros code k Hok Hb; [reflexivity|]. destruct Hok as [(_ & Hyx & Hxc & _) Hok'].
-  rewrite nlen_cons in Hb.
+  induction gs as [|[[o x] y] gs IH]; intros code st k Hok Hst; [reflexivity|]. destruct Hok as [(_ & Hyx & Hxc & _) Hok'].
+  destruct (Hst ltac:(discriminate)) as [-> Hb]. rewrite nlen_cons in Hb.
   cbn [oands_check]. assert ((x <? y) = false) as -> by (apply N.ltb_ge; exact Hyx).
   assert ((x <=? code) = true) as -> by (apply N.leb_le; exact Hxc).
-  assert ((W64 <=? code + 2) = false) as -> by (apply N.leb_gt; lia).
-  apply IH; [exact Hok'|lia].
+  apply (IH (code + 2)); [exact Hok'|]. intros Hne.
+  assert (1 <= nlen gs) by (destruct gs; [congruence|rewrite nlen_cons; lia]).
+  split; [apply N.mod_small; lia|lia].
 Qed.
 
 Lemma write_aig_checked_ok maxc a : aig_ok maxc a -> write_aig_checked a = WrOk (write_aig a).
 Proof.
-  intros ((_ & _ & _ & _ & _ & _ & _) & _ & Hovf & _ & _ & Hands & _). unfold write_aig_checked.
-  rewrite W64_pow in *.
-  assert ((2 ^ 64 <=? (a_inputs (g_header a) + 1) * 2 + 2 * nlen (g_latches a)) = false) as -> by (apply N.leb_gt; lia).
-  apply oands_ok_check; [exact Hands|rewrite W64_pow; lia].
+  intros ((Hc1 & Hc64 & HM & Hsum & El & _ & Ea & _) & _ & _ & _ & Hands & _). unfold write_aig_checked, ocode2, ocode1.
+  rewrite El, Ea in Hsum.
+  destruct (ocode_used (g_header a) (g_latches a) (g_ands a) maxc Hc64 HM Hc1 Hsum) as (_ & _ & Hc2a).
+  apply (oands_ok_check _ _ _ _ Hands). intros Hne. split; [exact (Hc2a Hne)|].
+  rewrite W64_pow. lia.
 Qed.
 
 (* ------------------------------------------------------------------ *)
@@ -1690,7 +1717,7 @@ Qed.
 
 Lemma BOK_write_aig maxc a : aig_ok maxc a -> BOK (write_aig a).
 Proof.
-  intros (_ & _ & _ & _ & _ & _ & Hs & Hc). unfold write_aig.
+  intros (_ & _ & _ & _ & _ & Hs & Hc). unfold write_aig.
   apply BOK_app; [unfold magic_binary; apply BOK_w_header; lia|].
   apply BOK_app; [apply BOK_w_olatches|].
   apply BOK_app; [apply BOK_w_middle|].
@@ -1783,6 +1810,29 @@ Example aig_roundtrip_example :
 Proof.
   split.
   - unfold aig_ok, ex_aig, mk_header.
+    cbn [g_header g_inputs g_latches g_outputs g_bad g_constraints g_justice g_fairness g_ands g_symbols g_comment
+         a_max_var a_inputs a_latches a_outputs a_ands a_bad a_constraints a_justice a_fairness].
+    ex_conj; ex_leaf.
+  - vm_compute. reflexivity.
+Qed.
+
+(* at the upper end of the domain, I + L + A = M = 2^63 - 1 (literal type usize / u64): the last `code + 2` wraps to 0
+   in the writer (D14) and in the parser (D13) alike, behind the last definition *)
+Definition ex_aig_max : aig :=
+  {| g_header := mk_header 9223372036854775807 9223372036854775805 1 0 1 0 0 0 0;
+     g_inputs := []; g_latches := [(None, 0, None)]; g_outputs := []; g_bad := []; g_constraints := [];
+     g_justice := []; g_fairness := []; g_ands := [(None, 18446744073709551614, 18446744073709551613)];
+     g_symbols := []; g_comment := None |}.
+
+Example aig_roundtrip_example_max :
+  aig_ok 18446744073709551615 ex_aig_max /\
+  match srun (parse_aig 300 18446744073709551615 lrs_init) (view_init (write_aig ex_aig_max) None) with
+  | ADone (r, _) _ => whole_file r = Ok ex_aig_max
+  | _ => False
+  end.
+Proof.
+  split.
+  - unfold aig_ok, ex_aig_max, mk_header.
     cbn [g_header g_inputs g_latches g_outputs g_bad g_constraints g_justice g_fairness g_ands g_symbols g_comment
          a_max_var a_inputs a_latches a_outputs a_ands a_bad a_constraints a_justice a_fairness].
     ex_conj; ex_leaf.
